@@ -30,6 +30,9 @@ type alt []pred
 type caseT struct {
 	M    int   `json:"m"`
 	Alts []alt `json:"alts"`
+	// Firsts[i] = bit set over the two continuation terminals {ta, tc} of alternative i (1 = ta,
+	// 2 = tc, 3 = both); nil = every alternative continues with ta only.
+	Firsts []int `json:"firsts,omitempty"`
 }
 
 func (k caseT) String() string {
@@ -50,14 +53,15 @@ func (k caseT) String() string {
 
 func main() { core.Main("C08", "exploration", run, replay, nil) }
 
-// host grammar: symbols: 0 eoi, 1 ta, 2 tb | nonterminals: S, P0..P(m-1), L0..L(n-1)
-// S: L_i ta  (all alternatives continue with the same token => reduce/reduce among the L_i on ta)
+// host grammar: symbols: 0 eoi, 1 ta, 2 tb, 3 tc | nonterminals: S, P0..P(m-1), L0..L(n-1)
+// S: L_i ta  (all alternatives continue with the same token => reduce/reduce among the L_i on ta);
+// with Firsts, S: L_i ta and/or S: L_i tc, so that the alternatives in conflict differ per terminal.
 // P_j: tb ; inputs: S (eoi), P_j (no-eoi); L_i: %empty with Lookaheads[i].
-func (k caseT) grammar() (*lalr.Grammar, int) {
+func (k caseT) grammar() (*lalr.Grammar, int, int) {
 	n := len(k.Alts)
-	g := &lalr.Grammar{Terminals: 3, Origin: gramenum.Origin{Index: -1}}
-	g.Symbols = []string{"eoi", "ta", "tb", "S"}
-	S := lalr.Sym(3)
+	g := &lalr.Grammar{Terminals: 4, Origin: gramenum.Origin{Index: -1}}
+	g.Symbols = []string{"eoi", "ta", "tb", "tc", "S"}
+	S := lalr.Sym(4)
 	for j := 0; j < k.M; j++ {
 		g.Symbols = append(g.Symbols, fmt.Sprintf("P%d", j))
 	}
@@ -67,7 +71,7 @@ func (k caseT) grammar() (*lalr.Grammar, int) {
 	}
 	g.Inputs = append(g.Inputs, lalr.Input{Nonterminal: S, Eoi: true})
 	for j := 0; j < k.M; j++ {
-		g.Inputs = append(g.Inputs, lalr.Input{Nonterminal: lalr.Sym(4 + j), Eoi: false})
+		g.Inputs = append(g.Inputs, lalr.Input{Nonterminal: lalr.Sym(5 + j), Eoi: false})
 	}
 	ri := 0
 	add := func(lhs lalr.Sym, rhs ...lalr.Sym) {
@@ -75,11 +79,21 @@ func (k caseT) grammar() (*lalr.Grammar, int) {
 		ri++
 	}
 	for i := 0; i < n; i++ {
-		add(S, lalr.Sym(firstL+i), 1)
+		f := 1
+		if k.Firsts != nil {
+			f = k.Firsts[i]
+		}
+		if f&1 != 0 {
+			add(S, lalr.Sym(firstL+i), 1)
+		}
+		if f&2 != 0 {
+			add(S, lalr.Sym(firstL+i), 3)
+		}
 	}
 	for j := 0; j < k.M; j++ {
-		add(lalr.Sym(4+j), 2)
+		add(lalr.Sym(5+j), 2)
 	}
+	emptyRule0 := ri
 	for i := 0; i < n; i++ {
 		add(lalr.Sym(firstL + i))
 		la := lalr.Lookahead{Nonterminal: lalr.Sym(firstL + i), Origin: gramenum.Origin{Index: 100 + i}}
@@ -88,7 +102,7 @@ func (k caseT) grammar() (*lalr.Grammar, int) {
 		}
 		g.Lookaheads = append(g.Lookaheads, la)
 	}
-	return g, firstL
+	return g, firstL, emptyRule0
 }
 
 func (a alt) holds(assign int) bool {
@@ -155,7 +169,7 @@ type outcome struct {
 }
 
 func (k caseT) check() outcome {
-	g, firstL := k.grammar()
+	g, firstL, emptyRule0 := k.grammar()
 	var tbl *lalr.Tables
 	var cerr error
 	if err := core.Guard(func() { tbl, cerr = lalr.Compile(g, lalr.Options{}) }); err != nil {
@@ -167,26 +181,8 @@ func (k caseT) check() outcome {
 		}
 		return outcome{accepted: false}
 	}
-	// accepted: find the decision rule used in state 0 on 'ta'
-	act := tbl.Action[0]
-	if act >= -2 {
-		return outcome{key: "no-lookahead-state", msg: fmt.Sprintf("state 0 action %d: expected a lookahead-dependent state", act)}
-	}
-	rule := -1
-	for a := -act - 3; tbl.Lalr[a] >= 0; a += 2 {
-		if tbl.Lalr[a] == 1 {
-			rule = tbl.Lalr[a+1]
-		}
-	}
-	if rule < len(g.Rules) {
-		return outcome{key: "no-decision-rule", msg: fmt.Sprintf("state 0 on ta has action %d; expected a runtime lookahead rule (>= %d); SR=%d RR=%d", rule, len(g.Rules), tbl.SR, tbl.RR)}
-	}
-	lr := tbl.Lookaheads[rule-len(g.Rules)]
-	if tbl.RuleLen[rule] != 0 {
-		return outcome{key: "decision-rule-length", msg: "lookahead rule must have length 0"}
-	}
 	out := outcome{accepted: true}
-	if !k.exclusive() {
+	if !k.exclusive() && k.Firsts == nil {
 		// find a witness assignment satisfying two alternatives
 		for assign := 0; assign < 1<<uint(k.M); assign++ {
 			cnt := 0
@@ -200,33 +196,80 @@ func (k caseT) check() outcome {
 			}
 		}
 	}
-	if !k.consistentOrder() {
+	if !k.consistentOrder() && k.Firsts == nil {
 		return outcome{key: "accepted-inconsistently-ordered-set", msg: "accepted although the alternatives mention the predicates in contradictory orders"}
 	}
-	for assign := 0; assign < 1<<uint(k.M); assign++ {
-		want := -1
-		cnt := 0
-		for i, a := range k.Alts {
-			if a.holds(assign) {
-				cnt++
-				want = i
+	// per continuation terminal: the alternatives that can continue with it are the ones in
+	// conflict there
+	for _, term := range []int{1, 3} {
+		var subset []int
+		for i := range k.Alts {
+			f := 1
+			if k.Firsts != nil {
+				f = k.Firsts[i]
+			}
+			if (term == 1 && f&1 != 0) || (term == 3 && f&2 != 0) {
+				subset = append(subset, i)
 			}
 		}
-		if cnt != 1 {
+		if len(subset) == 0 {
 			continue
 		}
-		// evaluate the decision list as the generated code does
-		target := int(lr.DefaultTarget)
-		for _, cs := range lr.Cases {
-			v := assign>>uint(cs.Input-1)&1 == 1
-			if v != cs.Negated {
-				target = int(cs.Target)
-				break
+		tn := g.Symbols[term]
+		// the action of state 0 on term
+		act := tbl.Action[0]
+		rule := -2
+		switch {
+		case act >= 0:
+			rule = act
+		case act < -2:
+			for a := -act - 3; tbl.Lalr[a] >= 0; a += 2 {
+				if tbl.Lalr[a] == term {
+					rule = tbl.Lalr[a+1]
+				}
 			}
 		}
-		out.decided++
-		if target != firstL+want {
-			return outcome{key: "wrong-alternative", msg: fmt.Sprintf("assignment %0*b satisfies only alternative %d but the decision list %+v (default %d) selects %s", k.M, assign, want, lr.Cases, lr.DefaultTarget, g.Symbols[target])}
+		if len(subset) == 1 {
+			if want := emptyRule0 + subset[0]; rule != want {
+				return outcome{key: "single-alternative-not-reduced", msg: fmt.Sprintf("state 0 on %s: only alternative %d continues with it, expected reduce of rule %d, tables say %d", tn, subset[0], want, rule)}
+			}
+			continue
+		}
+		if act >= -2 && k.Firsts == nil {
+			return outcome{key: "no-lookahead-state", msg: fmt.Sprintf("state 0 action %d: expected a lookahead-dependent state", act)}
+		}
+		if rule < len(g.Rules) {
+			return outcome{key: "no-decision-rule", msg: fmt.Sprintf("state 0 on %s has action %d; expected a runtime lookahead rule (>= %d) deciding among alternatives %v; SR=%d RR=%d", tn, rule, len(g.Rules), subset, tbl.SR, tbl.RR)}
+		}
+		lr := tbl.Lookaheads[rule-len(g.Rules)]
+		if tbl.RuleLen[rule] != 0 {
+			return outcome{key: "decision-rule-length", msg: "lookahead rule must have length 0"}
+		}
+		for assign := 0; assign < 1<<uint(k.M); assign++ {
+			want := -1
+			cnt := 0
+			for _, i := range subset {
+				if k.Alts[i].holds(assign) {
+					cnt++
+					want = i
+				}
+			}
+			if cnt != 1 {
+				continue
+			}
+			// evaluate the decision list as the generated code does
+			target := int(lr.DefaultTarget)
+			for _, cs := range lr.Cases {
+				v := assign>>uint(cs.Input-1)&1 == 1
+				if v != cs.Negated {
+					target = int(cs.Target)
+					break
+				}
+			}
+			out.decided++
+			if target != firstL+want {
+				return outcome{key: "wrong-alternative", msg: fmt.Sprintf("on %s (alternatives in conflict: %v): assignment %0*b satisfies only alternative %d but the decision list %+v (default %d) selects %s", tn, subset, k.M, assign, want, lr.Cases, lr.DefaultTarget, g.Symbols[target])}
+			}
 		}
 	}
 	return out
@@ -253,8 +296,8 @@ func allAlts(m int) []alt {
 }
 
 func run(c *core.Ctx) {
-	c.Rule("every set of n alternatives (n<=3 quick for m<=3; n<=4 thorough) drawn as combinations from all ordered conjunctions of distinct possibly-negated predicates over m<=3 predicates, placed in one parser state; accepted sets: all 2^m truth assignments; non-trivial = accepted set with >=1 assignment satisfying exactly one alternative; rejected sets that the reference calls exclusive+consistently ordered are counted as incompleteness (not a violation: the statement only constrains accepted sets and requires rejection of bad ones)")
-	var accepted, rejected, incomplete, decided, nontrivial int64
+	c.Rule("every set of n alternatives (n<=3 quick for m<=3; n<=4 thorough) drawn as combinations from all ordered conjunctions of distinct possibly-negated predicates over m<=3 predicates, placed in one parser state; every accepted set with n<=3 also under every assignment of continuation terminals {ta, tc, both} to the alternatives (the alternatives in conflict then differ per terminal); accepted sets: all 2^m truth assignments; non-trivial = accepted set with >=1 assignment satisfying exactly one alternative; rejected sets that the reference calls exclusive+consistently ordered are counted as incompleteness (not a violation: the statement only constrains accepted sets and requires rejection of bad ones)")
+	var accepted, rejected, incomplete, decided, nontrivial, perTerminal, perTerminalRejected int64
 	var accMu sync.Mutex
 	var acceptedSets []caseT
 	maxN := 3
@@ -291,6 +334,35 @@ func run(c *core.Ctx) {
 						if o.accepted {
 							atomic.AddInt64(&accepted, 1)
 							atomic.AddInt64(&decided, int64(o.decided))
+							if n >= 2 && n <= 3 {
+								// the same set with every assignment of continuation terminals
+								// {ta, tc, both} to the alternatives (all-ta is the base case)
+								total := 1
+								for i := 0; i < n; i++ {
+									total *= 3
+								}
+								for code := 1; code < total; code++ {
+									kf := caseT{M: m, Alts: k.Alts, Firsts: make([]int, n)}
+									x := code
+									for i := 0; i < n; i++ {
+										kf.Firsts[i] = []int{1, 2, 3}[x%3]
+										x /= 3
+									}
+									of := kf.check()
+									c.Eval(1)
+									atomic.AddInt64(&perTerminal, 1)
+									if of.key != "" {
+										c.Violate("per-terminal:"+of.key, of.msg+" :: "+kf.String()+fmt.Sprintf(" continuation terminals (1=ta 2=tc 3=both) %v", kf.Firsts), kf)
+									} else if !of.accepted {
+										// the sub-sets in conflict on ta / tc are rejected although the whole set is
+										// accepted: incompleteness of the planner, the statement only constrains
+										// accepted sets
+										atomic.AddInt64(&perTerminalRejected, 1)
+									} else {
+										atomic.AddInt64(&decided, int64(of.decided))
+									}
+								}
+							}
 							if o.decided > 0 {
 								atomic.AddInt64(&nontrivial, 1)
 								if n <= 3 {
@@ -339,6 +411,8 @@ func run(c *core.Ctx) {
 	c.Outcome("accepted", accepted)
 	c.Outcome("rejected", rejected)
 	c.Set("assignments_decided", decided)
+	c.Set("per_terminal_subset_variants", perTerminal)
+	c.Set("per_terminal_subset_variants_rejected(incompleteness)", perTerminalRejected)
 	c.Set("rejected_but_exclusive_and_consistently_ordered(incompleteness)", incomplete)
 }
 
